@@ -9,6 +9,7 @@ import sys
 import time
 
 VERIF = os.path.dirname(os.path.dirname(os.path.abspath(__file__)))
+OUT = os.environ.get('VERIF_OUT') or VERIF   # dev/seedtest.sh redirects evidence and replay files of scratch runs
 sys.path.insert(0, os.path.join(VERIF, 'extract'))
 sys.path.insert(0, os.path.join(VERIF, 'driver'))
 
@@ -93,8 +94,8 @@ def check_property(pid, tier, seed, keep=False):
     bdir = os.path.join(VERIF, 'build', 'run-%s-%d' % (pid, os.getpid()))
     shutil.rmtree(bdir, ignore_errors=True)
     os.makedirs(bdir)
-    os.makedirs(os.path.join(VERIF, 'evidence'), exist_ok=True)
-    os.makedirs(os.path.join(VERIF, 'replay'), exist_ok=True)
+    os.makedirs(os.path.join(OUT, 'evidence'), exist_ok=True)
+    os.makedirs(os.path.join(OUT, 'replay'), exist_ok=True)
     ev = dict(property_id=pid, tier=tier, seed=seed, level=P['category'], coverage={}, assumptions=[], wall_s=0.0, violations=0)
     cov = ev['coverage']
     rc = 0
@@ -120,7 +121,7 @@ def write_evidence(pid, ev, rc):
     cov.setdefault('trusted_base', [])
     cov.setdefault('samples', [])
     cov['exit_code'] = rc
-    path = os.path.join(VERIF, 'evidence', pid + '.json')
+    path = os.path.join(OUT, 'evidence', pid + '.json')
     json.dump(ev, open(path, 'w'), indent=1)
 
 
@@ -298,7 +299,7 @@ def _check(pid, P, tier, seed, bdir, ev):
 
 def write_replay(pid, x, seed):
     name = re.sub(r'[^\w.\[\]-]+', '_', x.obligation)[:120]
-    path = os.path.join(VERIF, 'replay', '%s-%s.json' % (pid, name))
+    path = os.path.join(OUT, 'replay', '%s-%s.json' % (pid, re.sub(r'[^A-Za-z0-9_.-]+', '_', name).strip('_')))
     rep = dict(property=pid, obligation=x.obligation, verifier_message=x.message, verifier_output=x.rendered,
                function=VR.short(x.fn_key) if x.fn_key else None, concrete_input=None, seed=seed)
     m = getattr(x, 'meta', None)
@@ -369,7 +370,7 @@ def replay(path):
         except ImportError:
             log('concrete input recorded: %s' % json.dumps(rep['concrete_input'])[:400])
     rc = check_property(pid, 'quick', rep.get('seed', 0))
-    ev = json.load(open(os.path.join(VERIF, 'evidence', pid + '.json')))
+    ev = json.load(open(os.path.join(OUT, 'evidence', pid + '.json')))
     still = rep['obligation'] in ev['coverage'].get('failed_obligations', [])
     log('obligation %s on the current tree: %s' % (rep['obligation'], 'STILL FAILS' if still else 'no longer fails'))
     return 1 if still else rc
